@@ -6,6 +6,8 @@
   ones), every prior device content.
 -/
 import DiskfsModel.Proofs.PartIO
+import DiskfsModel.Proofs.PartDisk
+import DiskfsModel.Proofs.MbrRead
 import DiskfsModel.Generated.PartIO
 namespace Diskfs.PartIO.C13
 
@@ -91,6 +93,182 @@ theorem gpt_reconcile_size (pStart pEnd pSize lss sz : Nat)
     · split at h
       · left; simp_all
       · simp at h
+
+/-! ### disk level: which partition Disk.WritePartitionContents / ReadPartitionContents / CopyPartitionRaw address
+
+  Model/PartDisk.lean mirrors Disk.GetPartition (first entry of `Table.GetPartitions()` whose `GetIndex()` equals
+  the argument), the start/end/size switch at the head of gpt WriteContents, `sectorSizes()` and the io.Pipe of
+  CopyPartitionRaw in front of the streaming loops above.  Every theorem quantifies over EVERY table (any list of
+  partitions: sparse GPT slots, duplicate, zero or negative indices, MBR slots, partitions never stamped with a
+  sector size), every index, every reader chunking and every device content. -/
+
+open Diskfs.PartDisk
+
+/-- the lookup picks the FIRST partition that carries the index: it has that index and nothing in front of it does -/
+theorem disk_lookup_first (ps : List P) (idx : Int) (p : P) (h : getPartition ps idx = some p) :
+    p.index = idx ∧ ∃ pre post, ps = pre ++ p :: post ∧ ∀ q ∈ pre, q.index ≠ idx :=
+  getPartition_some ps idx p h
+
+/-- the lookup fails exactly when no partition of the table carries the index (index 0 of a table numbered from 1,
+    an index past the last slot, an unused sparse GPT slot, a negative index) -/
+theorem disk_lookup_none_iff (ps : List P) (idx : Int) : getPartition ps idx = none ↔ ∀ q ∈ ps, q.index ≠ idx :=
+  getPartition_none ps idx
+
+/-- with pairwise different indices (what gpt.Read / mbr.Read produce) the lookup returns THE partition with the index -/
+theorem disk_lookup_unique (ps : List P) (idx : Int) (p : P) (hp : p ∈ ps) (hi : p.index = idx)
+    (huniq : ∀ a ∈ ps, ∀ b ∈ ps, a.index = b.index → a = b) : getPartition ps idx = some p :=
+  getPartition_unique ps idx p hp hi huniq
+
+/-- what the start/end/size switch of gpt WriteContents leaves: kind, index, start and sector sizes are kept
+    (so the byte start is), MBR is untouched, and the byte size is the entry's own Size when set, else the size
+    computed from End -/
+theorem reconcile_range (p p' : P) (h : reconcile p = some p') :
+    p'.kind = p.kind ∧ p'.index = p.index ∧ p'.start = p.start ∧ p'.lss = p.lss ∧ p'.pss = p.pss ∧
+    p'.byteStart = p.byteStart ∧ (p.kind = .mbr → p' = p) ∧
+    (p.kind = .gpt → (0 < p.size ∧ p'.byteSize = p.size) ∨
+                      (p.size = 0 ∧ p.start ≤ p.end_ ∧ p'.byteSize = calcSize p)) :=
+  reconcile_spec p p' h
+
+/-- the uint64 expression `(End - Start + 1) * lss` is the plain product whenever that does not wrap -/
+theorem calc_size_exact (p : P) (h1 : p.start ≤ p.end_) (h2 : p.end_ < two64)
+    (h3 : (p.end_ - p.start + 1) * p.lssOf < two64) : calcSize p = (p.end_ - p.start + 1) * p.lssOf :=
+  calcSize_exact p h1 h2 h3
+
+/-- a GPT partition as gpt.Read returns it (Size = (End-Start+1)*lss) passes the switch unchanged -/
+theorem reconcile_read_back (p : P) (hk : p.kind = .gpt) (h1 : p.start ≤ p.end_) (h2 : p.end_ < two64)
+    (h3 : (p.end_ - p.start + 1) * p.lssOf < two64) (hs : p.size = (p.end_ - p.start + 1) * p.lssOf) :
+    reconcile p = some p :=
+  reconcile_consistent p hk h1 h2 h3 hs
+
+/-- WritePartitionContents, unconditionally: a WriteAt is issued only if the table exists, the index names a
+    partition and its fields reconcile — and then it lies inside the byte range of the FIRST partition with that index -/
+theorem disk_write_in_partition (tbl : Option (List P)) (idx : Int) (chunks : List Bytes) (w : Wr)
+    (hw : w ∈ (diskWrite tbl idx chunks).ws) :
+    ∃ ps p p', tbl = some ps ∧ getPartition ps idx = some p ∧ reconcile p = some p' ∧
+      p.byteStart ≤ w.off ∧ w.off + w.data.length ≤ p.byteStart + p'.byteSize :=
+  diskWrite_in_partition tbl idx chunks w hw
+
+/-- no table, no such index (index 0, out of range, unused slot) or irreconcilable fields: nothing is written -/
+theorem disk_write_refused_writes_nothing (ps : List P) (idx : Int) (chunks : List Bytes) :
+    (diskWrite none idx chunks).ws = [] ∧
+    (getPartition ps idx = none → (diskWrite (some ps) idx chunks).ws = []) ∧
+    (∀ p, getPartition ps idx = some p → reconcile p = none → (diskWrite (some ps) idx chunks).ws = []) :=
+  ⟨rfl, diskWrite_badIndex ps idx chunks, fun p h hr => diskWrite_unreconciled ps idx chunks p h hr⟩
+
+/-- WritePartitionContents on the partition the lookup picks: success iff exactly its size was supplied; on
+    success the partition holds exactly the supplied bytes; in every case no byte outside it changes -/
+theorem disk_write_effect (d : Dev) (ps : List P) (idx : Int) (chunks : List Bytes) (p p' : P)
+    (hg : getPartition ps idx = some p) (hr : reconcile p = some p') :
+    ∃ r, diskWrite (some ps) idx chunks = .done r ∧
+      (r.ok = true ↔ (chunks.map List.length).sum = p'.byteSize) ∧
+      (r.ok = true → readAt (applyWrs d r.ws) p.byteStart p'.byteSize = chunks.flatten) ∧
+      (∀ i, i < p.byteStart ∨ p.byteStart + p'.byteSize ≤ i → applyWrs d r.ws i = d i) := by
+  have hb : p'.byteStart = p.byteStart := (reconcile_spec p p' hr).2.2.2.2.2.1
+  refine ⟨_, diskWrite_done ps idx chunks p p' hg hr, ?_, ?_, ?_⟩
+  · exact write_ok_iff _ _ _
+  · intro hok; rw [← hb]; exact write_effect d _ _ _ hok
+  · intro i hi; rw [← hb] at hi; exact write_frame d _ _ _ i hi
+
+/-- hence any OTHER partition whose byte range does not overlap the addressed one keeps its contents, whatever
+    the reader supplies -/
+theorem disk_write_other_partition_untouched (d : Dev) (tbl : Option (List P)) (idx : Int) (chunks : List Bytes) (q : P)
+    (hq : ∀ ps p p', tbl = some ps → getPartition ps idx = some p → reconcile p = some p' →
+      q.byteStart + q.byteSize ≤ p.byteStart ∨ p.byteStart + p'.byteSize ≤ q.byteStart) :
+    readAt (applyWrs d (diskWrite tbl idx chunks).ws) q.byteStart q.byteSize = readAt d q.byteStart q.byteSize := by
+  apply readAt_congr
+  intro i h1 h2
+  apply applyWrs_frame
+  intro w hw
+  obtain ⟨ps, p, p', h0, hg, hr, hlo, hhi⟩ := diskWrite_in_partition tbl idx chunks w hw
+  have := hq ps p p' h0 hg hr
+  omega
+
+/-- ReadPartitionContents: for the partition the lookup picks (inside the device; not the GPT Size = 0 case) the
+    writer receives exactly the partition's bytes, the count is its size, and every ReadAt stays inside it and is
+    at most one physical-sector chunk long -/
+theorem disk_read_exact (d : Dev) (devSize : Nat) (ps : List P) (idx : Int) (p : P)
+    (hg : getPartition ps idx = some p) (hsz : p.kind = .gpt → 0 < p.size)
+    (hdev : p.byteStart + p.byteSize ≤ devSize) :
+    diskRead d devSize (some ps) idx = .done (readAt d p.byteStart p.byteSize) p.byteSize (partReadReqs devSize p) ∧
+    (∀ r ∈ partReadReqs devSize p, p.byteStart ≤ r.1 ∧ r.1 + r.2 ≤ p.byteStart + p.byteSize ∧ r.2 ≤ p.pssOf) ∧
+    ((partReadReqs devSize p).map (·.2)).sum = p.byteSize := by
+  have h1 := oneChunk_false_of_size p hsz
+  refine ⟨?_, partReadReqs_inside devSize p h1 hdev⟩
+  simp only [diskRead, hg, partRead_exact d devSize p h1 hdev]
+
+/-- ReadPartitionContents on a missing table / index reads nothing -/
+theorem disk_read_refused (d : Dev) (devSize : Nat) (ps : List P) (idx : Int) (h : getPartition ps idx = none) :
+    diskRead d devSize (some ps) idx = .badIndex ∧ diskRead d devSize none idx = .noTable := by
+  simp [diskRead, h]
+
+/-- CopyPartitionRaw, unconditionally: every WriteAt lies inside the target partition (source missing, larger
+    than the target, overlapping, unreadable: all included) -/
+theorem copy_in_target (d : Dev) (devSize : Nat) (ps : List P) (from_ to : Int) (w : Wr)
+    (hw : w ∈ (copyRaw d devSize ps from_ to).ws) :
+    ∃ tp tp', getPartition ps to = some tp ∧ reconcile tp = some tp' ∧
+      tp.byteStart ≤ w.off ∧ w.off + w.data.length ≤ tp.byteStart + tp'.byteSize :=
+  copyRaw_in_target d devSize ps from_ to w hw
+
+/-- CopyPartitionRaw is correct whenever it can be: source and (reconciled) target inside the device, target at
+    least as large, ranges disjoint.  Then the outcome is success (the verification pass included), the target's
+    leading bytes are the source's bytes, the source still holds them and nothing outside the target changed — for
+    every device content and every pair of physical sector sizes of the two partitions -/
+theorem copy_correct (d : Dev) (devSize : Nat) (ps : List P) (from_ to : Int) (sp tp tp' : P)
+    (hs : getPartition ps from_ = some sp) (ht : getPartition ps to = some tp) (hr : reconcile tp = some tp')
+    (hne : from_ ≠ to) (hpos : 0 < sp.byteSize)
+    (hsdev : sp.byteStart + sp.byteSize ≤ devSize) (htdev : tp.byteStart + tp'.byteSize ≤ devSize)
+    (hfit : sp.byteSize ≤ tp'.byteSize)
+    (hdisj : sp.byteStart + sp.byteSize ≤ tp.byteStart ∨ tp.byteStart + tp'.byteSize ≤ sp.byteStart) :
+    (copyRaw d devSize ps from_ to).out = .ok ∧
+    readAt (applyWrs d (copyRaw d devSize ps from_ to).ws) tp.byteStart sp.byteSize = readAt d sp.byteStart sp.byteSize ∧
+    readAt (applyWrs d (copyRaw d devSize ps from_ to).ws) sp.byteStart sp.byteSize = readAt d sp.byteStart sp.byteSize ∧
+    (∀ i, i < tp.byteStart ∨ tp.byteStart + tp'.byteSize ≤ i → applyWrs d (copyRaw d devSize ps from_ to).ws i = d i) :=
+  copyRaw_correct d devSize ps from_ to sp tp tp' hs ht hr hne hpos hsdev htdev hfit hdisj
+
+/-! ### from the bytes of an MBR to the bytes of a partition: mbr.Read, then Disk.GetPartition, then the stream -/
+
+/-- after mbr.Read with sector sizes (lbs, pbs) — any Ints; 512 stands in when not positive — Disk.GetPartition(k)
+    for k = 1..4 finds slot k, whose byte range is [Start*L, (Start+Size)*L) with L the stamped LOGICAL sector size
+    (so also on 4096-byte sectors) and whose chunk size is the stamped physical sector size -/
+theorem mbr_read_then_lookup (d : Dev) (devSize : Nat) (lbs pbs : Int) (t : Mbr.Table)
+    (h : (Mbr.readT d devSize lbs pbs).1 = .ok t) (k : Nat) (hk : k < 4) :
+    ∃ p, t.parts[k]? = some p ∧ p.index = k + 1 ∧
+      getPartition t.diskParts ((k + 1 : Nat) : Int) = some (Mbr.toP t p) ∧
+      (Mbr.toP t p).byteStart = p.start * Mbr.stamp lbs ∧ (Mbr.toP t p).byteSize = p.size * Mbr.stamp lbs ∧
+      (Mbr.toP t p).pssOf = Mbr.stamp pbs ∧ reconcile (Mbr.toP t p) = some (Mbr.toP t p) :=
+  Mbr.readT_lookup d devSize lbs pbs t h k hk
+
+/-- end to end for MBR: whatever the first sector holds, if mbr.Read accepts it then WritePartitionContents(k), k = 1..4,
+    writes only inside [Start_k * L, (Start_k + Size_k) * L) of slot k as decoded from the device bytes -/
+theorem mbr_read_then_write_in_slot (d : Dev) (devSize : Nat) (lbs pbs : Int) (t : Mbr.Table)
+    (h : (Mbr.readT d devSize lbs pbs).1 = .ok t) (k : Nat) (hk : k < 4) (chunks : List Bytes) (w : Wr)
+    (hw : w ∈ (diskWrite (some t.diskParts) ((k + 1 : Nat) : Int) chunks).ws) :
+    ∃ p, t.parts[k]? = some p ∧ p.start * Mbr.stamp lbs ≤ w.off ∧
+      w.off + w.data.length ≤ p.start * Mbr.stamp lbs + p.size * Mbr.stamp lbs := by
+  obtain ⟨p, hp, _, hg, hs, hz, _, hr⟩ := Mbr.readT_lookup d devSize lbs pbs t h k hk
+  obtain ⟨ps, q, q', h0, hg', hr', hlo, hhi⟩ := diskWrite_in_partition _ _ chunks w hw
+  cases h0
+  rw [hg] at hg'
+  cases hg'
+  rw [hr] at hr'
+  cases hr'
+  exact ⟨p, hp, by rw [← hs]; exact hlo, by rw [← hs, ← hz]; exact hhi⟩
+
+/-! non-vacuity of the disk-level theorems: a sparse GPT table (slots 3 and 7 used, 4096-byte logical sectors on
+    the second, different physical sector sizes) and an MBR slot -/
+def exA : P := { kind := .gpt, index := 3, start := 2048, end_ := 4095, size := 1048576, lss := 512, pss := 512 }
+def exB : P := { kind := .gpt, index := 7, start := 1024, end_ := 2047, size := 0, lss := 4096, pss := 4096 }
+def exM : P := { kind := .mbr, index := 1, start := 63, end_ := 0, size := 100, lss := 0, pss := 0 }
+example : getPartition [exA, exB] 7 = some exB ∧ getPartition [exA, exB] 0 = none ∧ getPartition [exA, exB] 4 = none ∧
+    getPartition [exA, exB, exA] 3 = some exA ∧ getPartition [exA, exB] (-1) = none := by decide
+example : reconcile exA = some exA ∧ reconcile exB = some { exB with size := 4194304 } ∧ reconcile exM = some exM ∧
+    reconcile { exA with size := 5 } = none := by decide
+example : exA.byteStart = 1048576 ∧ exB.byteStart = 4194304 ∧ exM.byteStart = 32256 ∧ exM.byteSize = 51200 := by decide
+-- the hypotheses of copy_correct hold for 3 → 7 (1 MiB source, 4 MiB target behind it, device of 16 MiB)
+example : getPartition [exA, exB] 3 = some exA ∧ getPartition [exA, exB] 7 = some exB ∧
+    reconcile exB = some { exB with size := 4194304 } ∧ 0 < exA.byteSize ∧ exA.byteStart + exA.byteSize ≤ 16777216 ∧
+    exB.byteStart + ({ exB with size := 4194304 } : P).byteSize ≤ 16777216 ∧
+    exA.byteSize ≤ ({ exB with size := 4194304 } : P).byteSize ∧ exA.byteStart + exA.byteSize ≤ exB.byteStart := by decide
 
 /-- pinned facts regenerated from partition/mbr/partition.go: the four byte offset / size
     products are computed in 64-bit arithmetic, which is what lets the model use unbounded naturals
